@@ -176,3 +176,37 @@ def linearize(fs):
     L = Lin()
     out = [L.form(f) for f in fs]
     return out, len(L.mono), L
+
+
+def abstract_ufs(fs):
+    """Replace every uninterpreted function application by a fresh real constant
+    (the same constant for the same application).  Forgets functional
+    consistency only: unsat(result) => unsat(original).  Makes the query pure
+    polynomial arithmetic so that nlsat applies."""
+    cache = {}
+    apps = {}
+    keep = []
+
+    def tr(t):
+        i = t.get_id()
+        r = cache.get(i)
+        if r is not None:
+            return r
+        if not z3.is_app(t) or t.num_args() == 0:
+            cache[i] = t
+            return t
+        kids = [tr(c) for c in t.children()]
+        if t.decl().kind() == z3.Z3_OP_UNINTERPRETED:
+            key = (t.decl().name(), tuple(k.get_id() for k in kids))
+            v = apps.get(key)
+            if v is None:
+                v = apps[key] = z3.Const(f"uf!{len(apps)}", t.sort())
+            keep.append(kids)
+            cache[i] = v
+            return v
+        r = t.decl()(*kids)
+        keep.append(t)
+        cache[i] = r
+        return r
+
+    return [tr(f) for f in fs], len(apps)
